@@ -950,6 +950,7 @@ func streamMapper(t *testing.T, o *Out) {
 	r := newRand()
 	n := envInt("VERIF_N", 200)
 
+	var bigBatch string // what the big-batch probe (below) has to report, attached to the next case
 	run := func(e *mpEnv, c *mpCase, id string) {
 		var impl string
 		o.Pre("mapper", id, c.Payload())
@@ -965,6 +966,10 @@ func streamMapper(t *testing.T, o *Out) {
 			o.Count("e2e:" + strings.SplitN(impl, "\t", 2)[0])
 		}
 		mpCountCase(o, c)
+		if bigBatch != "" {
+			impl += "\tx_bigbatch=" + bigBatch
+			bigBatch = ""
+		}
 		o.Emit("mapper", id, c.Payload(), impl, mpNontrivial(c))
 	}
 
@@ -990,6 +995,40 @@ func streamMapper(t *testing.T, o *Out) {
 		o.Count("corpus")
 		run(e, c, "corpus-"+parts[1])
 	}
+
+	// one write above the insert chunk size of the mapping table (15000 rows per statement): 7600
+	// relationships with 15200 distinct, never-seen names in ONE FromTuple call, in a database of its
+	// own; every name must come back. (Not a protocol line: the model's chunking theorem covers every
+	// size, this is the implementation's side of it at the one size the generated batches do not reach.)
+	func() {
+		be := newMpEnv(t, mpDefaultNSs)
+		const nBig = 7600
+		ts := make([]*ketoapi.RelationTuple, nBig)
+		for k := range ts {
+			sub := fmt.Sprintf("big-subject-%d", k)
+			ts[k] = &ketoapi.RelationTuple{Namespace: mpDefaultNSs[0], Object: fmt.Sprintf("big-object-%d", k), Relation: "r", SubjectID: &sub}
+		}
+		its, err := be.reg.Mapper().FromTuple(be.ctx, ts...)
+		if err != nil {
+			bigBatch = "FromTuple of 7600 relationships failed: " + errKind(err)
+			return
+		}
+		back, err := be.reg.ReadOnlyMapper().ToTuple(be.ctx, its...)
+		if err != nil {
+			bigBatch = "ToTuple failed: " + errKind(err)
+			return
+		}
+		lost := 0
+		for k := range ts {
+			if k >= len(back) || back[k].Object != ts[k].Object || back[k].SubjectID == nil || *back[k].SubjectID != *ts[k].SubjectID {
+				lost++
+			}
+		}
+		if lost > 0 {
+			bigBatch = fmt.Sprintf("%d of %d relationships written in one batch of %d distinct names read back with other names", lost, nBig, 2*nBig)
+		}
+		o.Count("big-batch-probe")
+	}()
 
 	var e *mpEnv
 	var g *mpGen
